@@ -234,6 +234,31 @@ func init() {
 		sb.WriteString("def skOidcNew : List String := " + leanStrList(skONew) + "\n")
 		sb.WriteString("def keyfuncOptions : String := " + leanStr(keyOpts) + "\n")
 		sb.WriteString("def skAuthFunc : List String := " + leanStrList(skMW) + "\n")
+		// every statement in oidc.go that writes a field of the authenticator after construction: the accepted
+		// issuers / audience / subjects must come from the configuration only
+		var oidcFieldWrites []string
+		if fsO, fO, errO := parseFile(repo, "internal/authn/oidc/oidc.go"); errO == nil {
+			for _, d := range fO.Decls {
+				fd, ok := d.(*ast.FuncDecl)
+				if !ok || fd.Body == nil {
+					continue
+				}
+				ast.Inspect(fd.Body, func(n ast.Node) bool {
+					if as, ok := n.(*ast.AssignStmt); ok {
+						for _, l := range as.Lhs {
+							if se, ok := l.(*ast.SelectorExpr); ok {
+								if id, ok := se.X.(*ast.Ident); ok && (id.Name == "oidc" || id.Name == "client") {
+									oidcFieldWrites = append(oidcFieldWrites, fd.Name.Name+": "+src(fsO, as))
+								}
+							}
+						}
+					}
+					return true
+				})
+			}
+		}
+		sb.WriteString("/-- assignments to fields of the OIDC authenticator outside its composite literal -/\n")
+		sb.WriteString("def oidcFieldWrites : List String := " + leanStrList(oidcFieldWrites) + "\n")
 		sb.WriteString("\nend OpenFGAVerif.Gen.Authn\n")
 		return Result{Lean: sb.String(), Summary: map[string]interface{}{
 			"parserOptions": parserOpts, "validIssuers": issuers, "validatorOptions": validators, "subjectGuard": subjectGuard,
